@@ -139,6 +139,24 @@ def run(rep, prog, tier):
             rep.ob('R-IDX', 'Misc.combine_pops branch %s' % cond, ok and okt and bool(shp) and okcnd,
                    '%s with loop bounds %s; merged axes %s; shape ok: %s' % (ast.unparse(n), bounds, pair, shp), mm.rel, n.lineno,
                    what='each loop variable ranges over the extent of the axis it indexes; merged index is the sum of the pair')
+    if nb == 0:
+        # the function may have been rewritten to delegate to Spectrum.combine_two_pops: compose that method's (verified)
+        # summary - the merged population takes the slot of the first of the pair, the second is deleted - with the documented
+        # contract of this function: the merged population is ALWAYS on the first axis
+        dele = [c for c in own_nodes(mc) if isinstance(c, ast.Call) and isinstance(c.func, ast.Attribute) and c.func.attr == 'combine_two_pops']
+        moves = [c for c in own_nodes(mc) if isinstance(c, ast.Call) and (dotted(c.func) or '').split('.')[-1] in ('transpose', 'swapaxes', 'moveaxis', 'rollaxis')] + \
+            [a for a in own_nodes(mc) if isinstance(a, ast.Attribute) and a.attr == 'T']
+        if len(dele) == 1 and not moves and len(dele[0].args) == 1 and ast.unparse(dele[0].args[0]).replace(' ', '') in ('[idx[0]+1,idx[1]+1]',):
+            bad = []
+            for pair in ([0, 1], [0, 2], [1, 2]):
+                order = [('m' if a == pair[0] else a) for a in range(3) if a != pair[1]]
+                if order[0] != 'm':
+                    bad.append('idx=%s gives axes %s (merged population on axis %d)' % (pair, order, order.index('m')))
+            rep.ob('R-IDX', 'Misc.combine_pops delegation', not bad, '; '.join(bad) if bad else 'merged population first for every pair', mm.rel, dele[0].lineno,
+                   what='the combined population is always along the first axis (documented contract), also when the work is delegated')
+            nb = 4
+        else:
+            raise AnalysisError('expected 4 accumulation sites in Misc.combine_pops, found 0 (and no recognisable delegation)')
     if nb != 4:
         raise AnalysisError('expected 4 accumulation sites in Misc.combine_pops, found %d' % nb)
     # ---- scramble_pop_ids -------------------------------------------------------------------------------------------------------------
